@@ -207,3 +207,12 @@ pub proof fn lemma_groups_same_trans(c: GroupsT, b: GroupsT, a: GroupsT)
         lemma_boxes_same_trans(c[g]@, b[g]@, a[g]@);
     }
 }
+pub proof fn lemma_stages_same_trans(c: Seq<Stage>, b: Seq<Stage>, a: Seq<Stage>)
+    requires stages_same(c, b), stages_same(b, a)
+    ensures stages_same(c, a)
+{
+    assert forall|s: int| 0 <= s < a.len() implies groups_same(#[trigger] c[s].groups@, a[s].groups@) by {
+        assert(groups_same(b[s].groups@, a[s].groups@));
+        lemma_groups_same_trans(c[s].groups@, b[s].groups@, a[s].groups@);
+    }
+}
